@@ -360,7 +360,8 @@ def run(ctx):
            "the clipped location keeps strand and accumulates on the original defect", ag.lineno)
 
     # ---------------- R3 copy contract --------------------------------------
-    copycontract.check(ctx, idx, ["Feature", "Annotation", "AnnotatedSequence"], "R3")
+    copycontract.check(ctx, idx, ["Feature", "Annotation", "AnnotatedSequence"], "R3", immutable={
+        ("AnnotatedSequence", "_seqstart"): "an integer", ("Feature", "_key"): "a string"})
     # Feature hands out copies of its mutable parts
     for prop in ("locs", "qual"):
         f = s.func(f"Feature.{prop}")
@@ -429,6 +430,9 @@ def _enum_members(clsnode):
 
 
 MUTANTS = [
+    Mutant("annotation-adopts-set", ANN, "        if features is None:\n            self._features = set()\n        else:\n",
+           "        if features is None:\n            self._features = set()\n        elif isinstance(features, set):\n            self._features = features\n        else:\n",
+           "R3.copy-owns-state", "Annotation.__copy_create__"),
     Mutant("setitem-drops-seqstart", ANN, "                seq_start = index.start - self._seqstart\n            if index.stop is None:\n                seq_stop = len(self._sequence)\n            else:\n                seq_stop = index.stop - self._seqstart\n            # Item is a Sequence",
            "                seq_start = index.start\n            if index.stop is None:\n                seq_stop = len(self._sequence)\n            else:\n                seq_stop = index.stop - self._seqstart\n            # Item is a Sequence",
            "R1.sequence-subscripted-by-index"),
